@@ -134,6 +134,22 @@ impl ByteArena {
             .collect()
     }
 
+    /// Verification hook: `(start, end, creation serial)` of all live chunks in the process,
+    /// and the number of chunks created so far.
+    #[cfg(woodpile_verif)]
+    #[doc(hidden)]
+    pub fn verif_live_chunks() -> (Vec<(usize, usize, usize)>, usize) {
+        let ranges = Self::verif_live_ranges();
+        let serials = anchor::VERIF_CHUNK_SERIALS.lock().unwrap();
+        (
+            ranges
+                .iter()
+                .map(|(s, e)| (*s, *e, serials.1.get(s).copied().unwrap_or(0)))
+                .collect(),
+            serials.0,
+        )
+    }
+
     /// Flushes the arena's internal allocation cache.
     #[inline(never)] // The destructor can turn into a lot of code.
     pub fn flush_cache(&mut self) {
